@@ -6,6 +6,7 @@
 //! Oracle: (i) no schedule deadlocks or panics; (ii) the replies and the final observable state
 //! equal those of some sequential interleaving of the same requests on a fresh world.
 
+use crate::chainpool::{make_block, make_proof, mk_content, open_funded, regtest_cfg, tracker_add, ChanTxs, Deliver, FundSpec};
 use crate::engine::*;
 use crate::world::*;
 use lightning_signer::bitcoin;
@@ -13,6 +14,7 @@ use lightning_signer::bitcoin::absolute::LockTime;
 use lightning_signer::bitcoin::bip32::{ChildNumber, DerivationPath};
 use lightning_signer::bitcoin::hashes::Hash;
 use lightning_signer::bitcoin::secp256k1::{PublicKey, SecretKey};
+use lightning_signer::bitcoin::consensus::serialize;
 use lightning_signer::bitcoin::transaction::Version;
 use lightning_signer::bitcoin::{Amount, OutPoint, ScriptBuf, Sequence, Transaction, TxIn, TxOut, Txid, Witness};
 use lightning_signer::channel::{ChannelBase, ChannelSlot};
@@ -50,6 +52,14 @@ pub enum Req {
     Onchain,
     AddBlock,
     Allowlist { k: u8 },
+    /// Node::unchecked_sign_onchain_tx of a plain wallet spend (channel map, then tracker)
+    SignOnchain,
+    /// Node::setup_channel of the stub created in the initial state (tracker, then channel map)
+    SetupStub,
+    /// chain scenario: connect a block that holds channel ch's holder commitment (the monitor asks
+    /// the channel for its parameters while the tracker and the monitor state are held); without
+    /// the chain scenario this is a plain AddBlock
+    AddBlockClose { ch: u8 },
 }
 
 #[derive(Clone, Debug, Serialize, Deserialize)]
@@ -57,6 +67,10 @@ pub struct Case {
     pub threads: Vec<Vec<Req>>,
     pub pct: bool,
     pub sched_seed: u64,
+    /// chain scenario: regtest node, both channels funded by real transactions that are confirmed
+    /// in block 1, plus one channel stub (see `fresh_world`)
+    #[serde(default)]
+    pub chain: bool,
 }
 
 fn req_strat() -> impl Strategy<Value = Req> {
@@ -77,6 +91,31 @@ fn req_strat() -> impl Strategy<Value = Req> {
         2 => Just(Req::Onchain),
         2 => Just(Req::AddBlock),
         1 => (0u8..2).prop_map(|k| Req::Allowlist { k }),
+        2 => Just(Req::SignOnchain),
+    ]
+}
+
+/// request mix of the chain scenario: the requests that take the tracker, the channel map and the
+/// monitors are over-represented
+fn req_strat_chain() -> impl Strategy<Value = Req> {
+    let ch = || 0u8..2;
+    let n = || 1u8..3;
+    prop_oneof![
+        3 => (ch(), n(), 0u8..2).prop_map(|(ch, n, variant)| Req::HValidate { ch, n, variant }),
+        2 => (ch(), n()).prop_map(|(ch, n)| Req::HRevoke { ch, n }),
+        3 => (ch(), n(), 0u8..2).prop_map(|(ch, n, variant)| Req::CSign { ch, n, variant }),
+        1 => (ch(), 0u8..2).prop_map(|(ch, n)| Req::CRevoke { ch, n }),
+        3 => ch().prop_map(|ch| Req::ChanBalance { ch }),
+        2 => Just(Req::NodeBalance),
+        4 => Just(Req::Heartbeat),
+        3 => ch().prop_map(|ch| Req::Forget { ch }),
+        2 => (3u8..6).prop_map(|dbid| Req::NewChannel { dbid }),
+        1 => (0u8..2).prop_map(|h| Req::Approve { h }),
+        1 => Just(Req::Onchain),
+        2 => Just(Req::AddBlock),
+        4 => Just(Req::SignOnchain),
+        4 => Just(Req::SetupStub),
+        6 => ch().prop_map(|ch| Req::AddBlockClose { ch }),
     ]
 }
 
@@ -88,6 +127,63 @@ fn content(anchors: bool, n: u64, variant: u8) -> Content {
     let fee = 1000 * weight / 1000 + if anchors { 660 } else { 0 };
     let to_cp = BASE_CP - hs;
     Content { feerate: 1000, to_holder: VALUE - to_cp - hs - fee, to_cp, offered: vec![], received: htlcs }
+}
+
+/// Commitment content of the chain scenario (balances as `open_funded` left them; the variants
+/// differ by fee rate only, which needs no payment bookkeeping).
+fn content_chain(outbound: bool, n: u64, variant: u8) -> Content {
+    let rate = if n == 0 { 1000 } else { 1000 + 100 * variant as u32 + 10 * n as u32 };
+    mk_content(false, outbound, VALUE, rate, 0, vec![], vec![])
+}
+
+struct Fresh {
+    w: World,
+    /// chain scenario: the holder commitment transaction (number 0) of each channel
+    close_txs: Vec<Transaction>,
+    chain: bool,
+}
+
+fn fresh(chain: bool) -> Fresh {
+    if !chain {
+        return Fresh { w: fresh_world(), close_txs: vec![], chain };
+    }
+    let mut w = World::new(regtest_cfg());
+    let mut funded = vec![];
+    for i in 0..2u64 {
+        let mut spec = ChanSpec::basic(i + 1);
+        spec.value_sat = VALUE;
+        spec.outbound = i == 0;
+        funded.push(open_funded(&mut w, &spec, &FundSpec { two_inputs: false, funding_first: true }));
+    }
+    // a stub for SetupStub (index 2 in w.chans)
+    let mut sspec = ChanSpec::basic(9);
+    sspec.value_sat = VALUE;
+    sspec.outbound = false;
+    match w.new_stub(&sspec) {
+        Out::Ok(_) => {}
+        o => panic!("harness: stub: {}", o.err_msg()),
+    }
+    // block 1 confirms both funding transactions
+    let (tip, height) = {
+        let t = w.node.get_tracker();
+        (t.tip().0, t.height())
+    };
+    let block = make_block(&tip, height + 1, 0, funded.iter().map(|f| f.funding_tx.clone()).collect());
+    match tracker_add(&w.node, &block, false, 0) {
+        Deliver::Ok => {}
+        o => panic!("harness: funding block refused: {:?}", o),
+    }
+    {
+        let t = w.node.get_tracker();
+        w.node.get_persister().update_tracker(&w.node.get_id(), &t).expect("persist tracker");
+    }
+    let mut close_txs = vec![];
+    for f in funded.iter() {
+        let c0 = f.content0.clone();
+        let txs = ChanTxs::build(&w, f, (0, &c0), (0, &c0), None);
+        close_txs.push(txs.commit("holder_commit").expect("holder commitment").tx.clone());
+    }
+    Fresh { w, close_txs, chain }
 }
 
 /// Fresh world in the fixed initial state: two channels, holder commitment 0 current
@@ -121,6 +217,21 @@ struct Ctx2 {
     node: lightning_signer::prelude::Arc<lightning_signer::node::Node>,
     ids: Vec<lightning_signer::channel::ChannelId>,
     chans: Vec<ChanData>,
+    chain: bool,
+    outbound: Vec<bool>,
+    close_txs: Vec<Transaction>,
+    /// (id, setup) of the stub of the chain scenario
+    stub: Option<(lightning_signer::channel::ChannelId, lightning_signer::channel::ChannelSetup)>,
+}
+
+impl Ctx2 {
+    fn content(&self, ci: usize, n: u64, variant: u8) -> Content {
+        if self.chain {
+            content_chain(self.outbound[ci], n, variant)
+        } else {
+            content(false, n, variant)
+        }
+    }
 }
 
 struct ChanData {
@@ -129,7 +240,8 @@ struct ChanData {
     cp_secrets: Vec<SecretKey>,
 }
 
-fn prepare(w: &World) -> Ctx2 {
+fn prepare(f: &Fresh) -> Ctx2 {
+    let w = &f.w;
     let secp = w.secp.clone();
     let mut chans = vec![];
     for ci in 0..2 {
@@ -138,7 +250,7 @@ fn prepare(w: &World) -> Ctx2 {
         for n in 0..3u64 {
             let mut per_variant = vec![];
             for v in 0..2u8 {
-                let c = content(false, n, v);
+                let c = if f.chain { content_chain(ch.spec.outbound, n, v) } else { content(false, n, v) };
                 let s = ch.cp_sign_holder(&secp, n, &c, SigKind::Valid);
                 per_variant.push((c, s.commit_sig, s.htlc_sigs));
             }
@@ -150,7 +262,15 @@ fn prepare(w: &World) -> Ctx2 {
             cp_secrets: (0..3).map(|n| ch.cp.secret(n)).collect(),
         });
     }
-    Ctx2 { node: w.node.clone(), ids: w.chans.iter().map(|c| c.id0.clone()).collect(), chans }
+    Ctx2 {
+        node: w.node.clone(),
+        ids: w.chans.iter().map(|c| c.id0.clone()).collect(),
+        chans,
+        chain: f.chain,
+        outbound: w.chans.iter().map(|c| c.spec.outbound).collect(),
+        close_txs: f.close_txs.clone(),
+        stub: if f.chain { w.chans.get(2).map(|c| (c.id0.clone(), c.setup.clone())) } else { None },
+    }
 }
 
 fn st(r: Result<String, Status>) -> String {
@@ -180,7 +300,7 @@ fn exec(cx: &Ctx2, r: &Req) -> String {
         }
         Req::CSign { ch, n, variant } => {
             let ci = *ch as usize % 2;
-            let c = content(false, *n as u64, *variant);
+            let c = cx.content(ci, *n as u64, *variant);
             let p = cx.chans[ci].cp_points[*n as usize % 3];
             let (cpo, cpr) = (to_info2(&c.received), to_info2(&c.offered));
             st(node.with_channel(&cx.ids[ci], |chn| chn.sign_counterparty_commitment_tx_phase2(&p, *n as u64, c.feerate, c.to_holder, c.to_cp, cpo.clone(), cpr.clone())).map(|(s, h)| format!("{}:{}", s, h.len())))
@@ -227,6 +347,46 @@ fn exec(cx: &Ctx2, r: &Req) -> String {
             let mut tracker = node.get_tracker();
             let (header, proof) = make_testnet_header(tracker.tip(), tracker.height());
             match tracker.add_block(header, proof) {
+                Ok(_) => {
+                    node.get_persister().update_tracker(&node.get_id(), &tracker).expect("persist tracker");
+                    "ok:".into()
+                }
+                Err(_) => "err".into(),
+            }
+        }
+        Req::SignOnchain => {
+            let path: DerivationPath = vec![ChildNumber::from_normal_idx(1).unwrap()].into();
+            let spk = node.get_native_address(&path).unwrap().script_pubkey();
+            let tx = Transaction {
+                version: Version::TWO,
+                lock_time: LockTime::ZERO,
+                input: vec![TxIn { previous_output: OutPoint { txid: Txid::from_byte_array([0x21; 32]), vout: 0 }, script_sig: ScriptBuf::new(), sequence: Sequence::MAX, witness: Witness::new() }],
+                output: vec![TxOut { value: Amount::from_sat(999_850), script_pubkey: spk.clone() }],
+            };
+            let prev = vec![TxOut { value: Amount::from_sat(1_000_000), script_pubkey: spk }];
+            st(node.unchecked_sign_onchain_tx(&tx, &[path], &prev, vec![None]).map(|w| format!("{:x}", hash_of(&w))))
+        }
+        Req::SetupStub => match &cx.stub {
+            None => "err".into(),
+            Some((id0, setup)) => st(node.setup_channel(id0.clone(), None, setup.clone(), &DerivationPath::master()).map(|_| String::new())),
+        },
+        Req::AddBlockClose { ch } => {
+            if !cx.chain {
+                return exec(cx, &Req::AddBlock);
+            }
+            let ci = *ch as usize % 2;
+            // as the protocol handler does: the tracker stays locked from the request to the persist
+            let mut tracker = node.get_tracker();
+            let height = tracker.height() + 1;
+            let block = make_block(&tracker.tip().0, height, 7, vec![cx.close_txs[ci].clone()]);
+            let (txids, outpoints) = tracker.get_all_forward_watches();
+            let proof = make_proof(&block, &tracker.tip().1, height, &txids, &outpoints, false);
+            if proof.proof.is_external() {
+                if tracker.block_chunk(block.block_hash(), 0, &serialize(&block)).is_err() {
+                    return "err".into();
+                }
+            }
+            match tracker.add_block(block.header, proof) {
                 Ok(_) => {
                     node.get_persister().update_tracker(&node.get_id(), &tracker).expect("persist tracker");
                     "ok:".into()
@@ -343,20 +503,35 @@ impl Prop for C20 {
         60
     }
     fn strategy(&self, _tier: Tier) -> BoxedStrategy<Case> {
-        (proptest::collection::vec(proptest::collection::vec(req_strat(), 1..3), 2..4), any::<bool>(), any::<u64>())
-            .prop_map(|(mut threads, pct, sched_seed)| {
-                // at most 5 requests in total
-                while threads.iter().map(|t| t.len()).sum::<usize>() > 5 {
-                    let i = threads.iter().enumerate().max_by_key(|(_, t)| t.len()).map(|(i, _)| i).unwrap();
-                    threads[i].pop();
+        fn trim(mut threads: Vec<Vec<Req>>) -> Vec<Vec<Req>> {
+            // at most 5 requests in total
+            while threads.iter().map(|t| t.len()).sum::<usize>() > 5 {
+                let i = threads.iter().enumerate().max_by_key(|(_, t)| t.len()).map(|(i, _)| i).unwrap();
+                threads[i].pop();
+            }
+            // a commitment transaction confirms once: at most one AddBlockClose per channel
+            let mut seen = BTreeSet::new();
+            for t in threads.iter_mut() {
+                for r in t.iter_mut() {
+                    if let Req::AddBlockClose { ch } = r {
+                        if !seen.insert(*ch % 2) {
+                            *r = Req::AddBlock;
+                        }
+                    }
                 }
-                Case { threads, pct, sched_seed }
-            })
-            .boxed()
+            }
+            threads
+        }
+        let plain = (proptest::collection::vec(proptest::collection::vec(req_strat(), 1..3), 2..4), any::<bool>(), any::<u64>())
+            .prop_map(|(threads, pct, sched_seed)| Case { threads: trim(threads), pct, sched_seed, chain: false });
+        let chain = (proptest::collection::vec(proptest::collection::vec(req_strat_chain(), 1..3), 2..4), any::<bool>(), any::<u64>())
+            .prop_map(|(threads, pct, sched_seed)| Case { threads: trim(threads), pct, sched_seed, chain: true });
+        prop_oneof![1 => plain, 1 => chain].boxed()
     }
 
     fn run(&self, case: &Case, stt: &mut CaseStats, ctx: &Ctx) -> Result<(), Violation> {
         let iterations = ctx.tier.pick(60usize, 400usize);
+        let chain = case.chain;
         let threads = case.threads.clone();
         let lens: Vec<usize> = threads.iter().map(|t| t.len()).collect();
         let has_forget = threads.iter().flatten().any(|r| matches!(r, Req::Forget { .. }));
@@ -371,8 +546,9 @@ impl Prop for C20 {
             let r = catch_unwind(AssertUnwindSafe(|| {
                 shuttle::Runner::new(RandomScheduler::new_from_seed(1, 1), shuttle_config()).run(move || {
                     for order in orders2.iter() {
-                        let w = fresh_world();
-                        let cx = prepare(&w);
+                        let f = fresh(chain);
+                        let cx = prepare(&f);
+                        let w = &f.w;
                         let mut pos = vec![0usize; threads.len()];
                         let mut replies: Vec<Vec<String>> = vec![vec![]; threads.len()];
                         for t in order {
@@ -380,7 +556,7 @@ impl Prop for C20 {
                             pos[*t] += 1;
                             replies[*t].push(exec(&cx, r));
                         }
-                        let state = final_state(&w);
+                        let state = final_state(w);
                         seq_out2.lock().unwrap().insert(Outcome { replies, state });
                     }
                 });
@@ -404,8 +580,9 @@ impl Prop for C20 {
             let bad2 = bad.clone();
             let executed2 = executed.clone();
             let body = move || {
-                let w = fresh_world();
-                let cx = lightning_signer::prelude::Arc::new(prepare(&w));
+                let f = fresh(chain);
+                let cx = lightning_signer::prelude::Arc::new(prepare(&f));
+                let w = &f.w;
                 let mut handles = vec![];
                 for reqs in threads.iter() {
                     let cx = cx.clone();
@@ -413,7 +590,7 @@ impl Prop for C20 {
                     handles.push(shuttle::thread::spawn(move || reqs.iter().map(|r| exec(&cx, r)).collect::<Vec<String>>()));
                 }
                 let replies: Vec<Vec<String>> = handles.into_iter().map(|h| h.join().unwrap()).collect();
-                let state = final_state(&w);
+                let state = final_state(w);
                 let o = Outcome { replies, state };
                 executed2.fetch_add(1, std::sync::atomic::Ordering::Relaxed);
                 if !seq2.contains(&o) {
@@ -433,7 +610,8 @@ impl Prop for C20 {
         };
         stt.class_n("schedules_executed", executed.load(std::sync::atomic::Ordering::Relaxed) as u64);
         stt.class(if case.pct { "pct_scheduler" } else { "random_scheduler" });
-        stt.sample = Some(json!({"threads": case.threads, "pct": case.pct, "sched_seed": case.sched_seed, "sequential_outcomes": seq.len()}));
+        stt.class(if case.chain { "chain_scenario" } else { "plain_scenario" });
+        stt.sample = Some(json!({"threads": case.threads, "pct": case.pct, "sched_seed": case.sched_seed, "chain": case.chain, "sequential_outcomes": seq.len()}));
 
         // shared-object pattern
         let mut shared = false;
@@ -461,7 +639,45 @@ impl Prop for C20 {
                 let msg = e.downcast_ref::<String>().cloned().or(e.downcast_ref::<&str>().map(|s| s.to_string())).unwrap_or_else(|| "panic".into());
                 let is_deadlock = msg.contains("deadlock");
                 let sig = if is_deadlock {
-                    if has_forget { "C20:deadlock:program-with-forget_channel".to_string() } else { "C20:deadlock:other".to_string() }
+                    // name the deadlock by the smallest pair of requests (one per thread) that
+                    // deadlocks on its own, so that the signature does not depend on bystanders
+                    let kind = |r: &Req| format!("{:?}", r).split(|c| c == ' ' || c == '{').next().unwrap_or("").to_string();
+                    let mut pair: Option<String> = None;
+                    'outer: for (i, a) in threads.iter().enumerate() {
+                        for b in threads.iter().skip(i + 1) {
+                            for x in a.iter() {
+                                for y in b.iter() {
+                                    let prog = vec![vec![x.clone()], vec![y.clone()]];
+                                    let body = move || {
+                                        let f = fresh(chain);
+                                        let cx = lightning_signer::prelude::Arc::new(prepare(&f));
+                                        let hs: Vec<_> = prog.iter().map(|reqs| {
+                                            let cx = cx.clone();
+                                            let reqs = reqs.clone();
+                                            shuttle::thread::spawn(move || reqs.iter().map(|r| exec(&cx, r)).collect::<Vec<String>>())
+                                        }).collect();
+                                        for h in hs {
+                                            let _ = h.join();
+                                        }
+                                    };
+                                    let r = catch_unwind(AssertUnwindSafe(|| shuttle::Runner::new(RandomScheduler::new_from_seed(7, 300), shuttle_config()).run(body)));
+                                    if let Err(e) = r {
+                                        let m = e.downcast_ref::<String>().cloned().or(e.downcast_ref::<&str>().map(|s| s.to_string())).unwrap_or_default();
+                                        if m.contains("deadlock") {
+                                            let mut k = vec![kind(x), kind(y)];
+                                            k.sort();
+                                            pair = Some(k.join("+"));
+                                            break 'outer;
+                                        }
+                                    }
+                                }
+                            }
+                        }
+                    }
+                    match pair {
+                        Some(p) => format!("C20:deadlock:{}", p),
+                        None => if has_forget { "C20:deadlock:program-with-forget_channel".to_string() } else { "C20:deadlock:other".to_string() },
+                    }
                 } else {
                     "C20:panic-under-concurrency".to_string()
                 };
@@ -477,7 +693,7 @@ impl Prop for C20 {
             }
         }
         if shared {
-            stt.nontrivial_shape((multiset, shared, lens));
+            stt.nontrivial_shape((multiset, shared, lens, case.chain));
         }
         Ok(())
     }
